@@ -155,38 +155,39 @@ class ImplRunner:
         return line
 
     def run(self, cases, window=32):
-        """Pipelined: keep up to `window` cases in flight; the timeout applies per result."""
+        """A writer thread feeds the cases; this thread reads one result per case with a per-result timeout.
+        A case that times out (or crashes the worker) is reported and the worker restarted on the rest."""
+        import threading
         results = []
         n = len(cases)
-        sent = 0
         blobs = [(json.dumps(c) + "\n").encode() for c in cases]
-        inflight = []          # sizes of the inputs sent and not yet answered
-        if self.p is None:
-            self._spawn()
         while len(results) < n:
-            # never let un-answered input exceed the pipe capacity: the parent must not block in write
-            # while the worker blocks writing results (a lone oversized case is sent when nothing is in flight)
-            while sent < n and len(inflight) < window and (not inflight or sum(inflight) + len(blobs[sent]) < 60000):
-                try:
-                    self.p.stdin.write(blobs[sent])
-                    self.p.stdin.flush()
-                except (BrokenPipeError, OSError):
-                    break
-                inflight.append(len(blobs[sent]))
-                sent += 1
-            line = self._readline()
-            if line is None:
-                crashed = self.p.poll() is not None
-                self.p.kill()
-                self.p.wait()
-                results.append(["crash"] if crashed else ["timeout"])
+            if self.p is None:
                 self._spawn()
-                sent = len(results)
-                inflight = []
-                continue
-            if inflight:
-                inflight.pop(0)
-            results.append(json.loads(line))
+            proc = self.p
+            start = len(results)
+
+            def feed(proc=proc, start=start):
+                try:
+                    for b in blobs[start:]:
+                        proc.stdin.write(b)
+                    proc.stdin.flush()
+                except (BrokenPipeError, OSError, ValueError):
+                    pass
+
+            th = threading.Thread(target=feed, daemon=True)
+            th.start()
+            while len(results) < n:
+                line = self._readline()
+                if line is None:
+                    crashed = self.p.poll() is not None
+                    self.p.kill()
+                    self.p.wait()
+                    self.p = None
+                    results.append(["crash"] if crashed else ["timeout"])
+                    break
+                results.append(json.loads(line))
+            th.join(timeout=5)
         return results
 
 
